@@ -45,6 +45,7 @@ func main() {
 		}
 	}
 	h.Cfg.OneShotAsserts = os.Getenv("ONESHOT") != ""
+	h.Cfg.OneShotAll = os.Getenv("ONESHOT") == "all"
 	if t := os.Getenv("TIMEOUT"); t != "" {
 		v, _ := strconv.Atoi(t)
 		h.TimeoutMs = v * 1000
@@ -67,7 +68,7 @@ func main() {
 		fmt.Printf("VIOLATION [%s] %s %s\n", v.Kind, v.Label, v.Detail)
 		if os.Getenv("SHOWMODEL") != "" {
 			for _, in := range v.Inputs {
-				fmt.Printf("    %s(%s)=%d\n", in.Name, in.Tag, in.Val.Bits)
+				fmt.Printf("    %s(%s)=%d %s\n", in.Name, in.Tag, in.Val.Bits, in.Val.Raw)
 			}
 		}
 	}
